@@ -111,6 +111,20 @@ func (g *gen) sign(h cipher.SHA256, sk cipher.SecKey) cipher.Sig {
 	}
 }
 
+// like sign, but the nonce is re-drawn until the top byte of n - s is `top`: the negation of such a
+// signature sits exactly at a boundary of the verifier's bit-255 test (0x7f/0x80/0x81) or far above it (0xff)
+func (g *gen) signWhere(h cipher.SHA256, sk cipher.SecKey, top byte) cipher.Sig {
+	for {
+		sig := g.sign(h, sk)
+		neg := new(big.Int).Sub(bigN, sOf(sig))
+		if b32(neg)[0] == top {
+			return sig
+		}
+	}
+}
+
+var negTops = []byte{0x80, 0x81, 0x7f, 0xff, 0x80, 0x80}
+
 type mutation struct {
 	name string
 	f    func(g *gen, s cipher.Sig) ([]cipher.Sig, bool) // results; ok=false when not applicable
@@ -223,9 +237,17 @@ func run(args []string) error {
 			}
 			for _, t := range outs {
 				same := t == sig
-				e1 := cipher.VerifyAddressSignedHash(addr, t, h)
-				e2 := cipher.VerifyPubKeySignedHash(pk, t, h)
-				e3 := cipher.VerifySignatureRecoverPubKey(t, h)
+				var e1, e2, e3 error
+				errPanic := fmt.Errorf("panic")
+				if Guard(func() { e1 = cipher.VerifyAddressSignedHash(addr, t, h) }) {
+					e1 = errPanic
+				}
+				if Guard(func() { e2 = cipher.VerifyPubKeySignedHash(pk, t, h) }) {
+					e2 = errPanic
+				}
+				if Guard(func() { e3 = cipher.VerifySignatureRecoverPubKey(t, h) }) {
+					e3 = errPanic
+				}
 				fields := map[string]interface{}{
 					"role": "signature", "mutation": mu.name, "same": yn(same), "in_window": yn(inWindow(sOf(sig))),
 					"sig": hx(sig[:]), "mutated": hx(t[:]), "hash": hx(h[:]), "pubkey": hx(pk[:]),
@@ -257,6 +279,22 @@ func run(args []string) error {
 		if err := sigRole("sig", h, pk, sig); err != nil {
 			return err
 		}
+	}
+
+	// ---- honest signatures whose negation n - s has top byte 0x80 / 0x81 / 0x7f / 0xff (rejection sampling
+	//      on the nonce; 0x7f is only reachable inside the F12 window and is skipped there)
+	for i, top := range negTops {
+		if top == 0x7f {
+			continue
+		}
+		sk, pk := g.key()
+		var h cipher.SHA256
+		copy(h[:], g.r.Bytes(32))
+		sig := g.signWhere(h, sk, top)
+		if err := sigRole(fmt.Sprintf("top%02x", top), h, pk, sig); err != nil {
+			return err
+		}
+		_ = i
 	}
 
 	// ---- F12 replay: (r, s) with s inside the window recovers SOME key; both it and its negation are accepted
@@ -440,6 +478,9 @@ func run(args []string) error {
 		txn.Sigs = make([]cipher.Sig, nin)
 		for j := range txn.In {
 			txn.Sigs[j] = g.sign(cipher.AddSHA256(txn.InnerHash, txn.In[j]), keys[j])
+			if j == 0 && i%2 == 0 { // negation lands on a boundary of the bit-255 test
+				txn.Sigs[j] = g.signWhere(cipher.AddSHA256(txn.InnerHash, txn.In[j]), keys[j], []byte{0x80, 0x81, 0xff, 0x80}[(i/2)%4])
+			}
 		}
 		if err := txn.UpdateHeader(); err != nil {
 			return err
@@ -552,6 +593,9 @@ func run(args []string) error {
 		copy(blk.Head.PrevHash[:], g.r.Bytes(32))
 		copy(blk.Head.UxHash[:], g.r.Bytes(32))
 		sb := coin.SignedBlock{Block: *blk, Sig: g.sign(blk.HashHeader(), sk)}
+		if i%2 == 0 {
+			sb.Sig = g.signWhere(blk.HashHeader(), sk, []byte{0x80, 0x81, 0xff, 0x80}[(i/2)%4])
+		}
 		if err := sb.VerifySignature(pk); err != nil {
 			return fmt.Errorf("generated block is not accepted: %v", err)
 		}
